@@ -9,14 +9,9 @@ import rules_sig as sig
 import rules_cg as cg
 import witness
 
-try:
-    import rules_struct as st
-except ImportError:  # pragma: no cover
-    st = None
-try:
-    import rules_alg as alg
-except ImportError:  # pragma: no cover
-    alg = None
+import rules_struct as st
+import rules_struct2 as st2
+import rules_pos as pos
 
 BASE_ASSUME = [
     "rustc's type checker, borrow checker and MIR construction (facts come from the nightly compiler's resolved MIR at "
@@ -64,6 +59,8 @@ def run(pid, tier, t0):
         print("unknown property %s" % pid)
         return 2
     d = P[pid]
+    import os
+    os.environ["HLV_TIER"] = tier
     ctx = common.Ctx("default")
     R = roles.Roles(ctx)
     results = []
@@ -99,6 +96,51 @@ def W(pid, toolchain=None):
 
 
 # ---------------------------------------------------------------------------------------------
+LEAK_ALL = leak("LK", (), 60, all_fns=True)
+LEAK_SCOPED = leak("R3", ("ACQ-SCOPED",), 30)
+
+prop("C01",
+     [cg.rule_L1, st.rule_L2, st.rule_L4, sig.rule_O1, ts.rule_SD, ts2.rule_K1, cg.rule_K2, ts2.rule_R5, ts2.rule_R3key, ts2.rule_R1,
+      A("rule_Y1"), A("rule_Y2")],
+     "Premises of the Havender/Coffman argument, each a necessary condition visible in the code: L1 every safe function that can "
+     "reach a blocking raw acquisition takes the key by value (call graph); L2 sorting collections cache get_ptrs(data) sorted "
+     "ascending by lock address and block in that order; L4 the owned collection is one indivisible unit with one fixed inner "
+     "enumeration; O1 no shared access to its members; SD no re-acquisition of a held receiver inside a call; L5 one key per thread "
+     "(K1, K2, R5, R3k, R1); Y1/Y2 the retrying collection has one blocking site per pass reached only after the rollback.",
+     "absence of deadlock as a behaviour over all schedules and programs; progress of the retry loop (livelock).")
+
+prop("C02",
+     [ts.rule_T1, ts.rule_T2, pos.rule_P1, st2.rule_D1, st.rule_M1, st.rule_E1],
+     "T1 every guard()/data_mut()/hold construction/protected-cell access is preceded on its path by a successful acquisition of "
+     "the same receiver in the matching mode (path-sensitive typestate over every safe or acquiring function, eager arguments "
+     "included); T2 user closures run only while held; P1 position k of every container guard is member k; D1 guard Deref targets "
+     "the cell of the lock its Drop releases; E1 the locks acquired are exactly the members' leaves.",
+     "mutual exclusion and per-lock value continuity as observed over interleavings/histories (they follow from the raw lock's "
+     "contract plus these rules, by argument not by check).")
+
+prop("C03",
+     [ts2.rule_R1, sig.rule_R2, LEAK_SCOPED, ts2.rule_R3key, ts2.rule_R4, ts2.rule_R5, ts.rule_M4, A("rule_E5")],
+     "R1 unlock-style APIs release every lock of the consumed guard before returning its key; R2 key field declared after hold "
+     "fields in every guard (drop order); R3 scoped calls hold nothing at return and at every unwinding exit; R3k the key outlives "
+     "the closure; R4 a failed try returns Err(key) holding nothing and without running user code; R5 guard-returning APIs move the "
+     "key exactly once into the result; E5 the collection-level try helpers roll back everything before reporting failure.",
+     "the single-thread history enumeration itself (the rules are per-API invariants that make every history safe).")
+
+prop("C04",
+     [st.rule_E1, st.rule_E2, st.rule_DELEG, cg.rule_E3, ts2.rule_E4r, ts2.rule_R4, A("rule_E5"), A("rule_X2")],
+     "E1 every get_ptrs is leaf/delegate/container(all members)/cached-sorted-list; E2 each collection's six RawLock ops use one "
+     "list expression with mode purity and the matching ordered_* helper; wrappers delegate op-for-op; E3 no try-style function "
+     "reaches a blocking acquisition (call graph); E4 scoped closure runs exactly once iff acquired and its result is returned; "
+     "E5/X2 ordered_try_*: true only after the loop ran to exhaustion, false only after rolling back the acquired prefix.",
+     "behaviour against concurrent holders (schedules); that the raw try really never waits (lock_api contract).")
+
+prop("C05",
+     [st.rule_M1, st.rule_M2, ts.rule_M4, LEAK_ALL, st.rule_E2, ts2.rule_R1, A("rule_Q3"), A("rule_Q4")],
+     "M1 hold types release exactly once in their creation mode on their own lock field and are not Clone/Copy; M2 each HL op maps to "
+     "one lock_api op of the same kind and mode; M4 every release (explicit, hold Drop, guard drop) hits a receiver the call holds "
+     "in that mode; LK every lock a call acquires is released or owned by the returned guard at every exit; E2 mode purity of the "
+     "collection ops; Q3/Q4 rollback and unwind handlers of the multi-lock algorithms release what was taken, in mode.",
+     "'when all threads dropped their guards every lock is free' as a run-time fact over schedules.")
 prop("C06",
      [ts2.rule_K1, cg.rule_K2, sig.rule_K3, sig.rule_S2, ts2.rule_R5, ts2.rule_R3key, ts2.rule_R1],
      "Static invariants behind 'at most one live ThreadKey per thread': K1 single constructor guarded by the flag test-and-set "
@@ -122,3 +164,70 @@ prop("C15",
      "OwnedLockCollection, protected cells touched only under a hold (T1) - plus compile-fail witnesses with twins.",
      "soundness of unsafe blocks beyond T1/A5; programs outside the corpus.",
      thorough_rules=[W("C15", "nightly")])
+
+prop("C07",
+     [st.rule_N1N2, st.rule_N3, st.rule_N4, st.rule_L2, W("C07")],
+     "N1/N2 a collection can only be built by an unsafe constructor, under an OwnedLockable bound, or on the no-duplicates edge of "
+     "a check over the collection's own complete (for sorting collections: sorted) lock list; N3 the checks compare thin addresses "
+     "of all adjacent pairs of the whole slice / insert every element into the address set; N4 OwnedLockable is never implemented "
+     "for shared references or borrowing collections and is inherited only through OwnedLockable parameters; compile-fail witnesses.",
+     "exactness as a function of all inputs (correctness of slice::sort / HashSet); zero-sized lock types sharing an address.",
+     thorough_rules=[W("C07", "nightly")])
+
+prop("C08",
+     [st.rule_L2, st.rule_O2, st.rule_E1, st.rule_L4, st.rule_E2],
+     "L2 both sort sites sort the full get_ptrs list ascending by lock address before it is cached, and the blocking ops use exactly "
+     "that cached list; O2 the cached order and the data are never written after construction and no &mut to the data is handed "
+     "out; E1 nested boxed/ref/retrying collections contribute their leaves, the owned collection contributes itself (L4).",
+     "the run-time acquisition sequence for concrete inputs.")
+
+prop("C09",
+     [A("rule_Y1"), A("rule_Y2"), A("rule_Y3"), st.rule_E2, cg.rule_E3],
+     "Y1 exactly one blocking acquisition site per pass, every other acquisition of the pass is a try; Y2 every path from a failed "
+     "try back to the blocking site passes through the rollback of the prefix and the guarded release of the first lock; Y3 the "
+     "held set is empty whenever the blocking site is reached (held-set abstract interpretation over index intervals).",
+     "'nevertheless finishes': liveness under contention (the authors document possible livelock).")
+
+prop("C10",
+     [st2.rule_F1, st2.rule_F2, st2.rule_F3, st2.rule_F4, st2.rule_F5, st2.rule_F6, st2.rule_V3],
+     "F1 PoisonRef poisons exactly when dropped during unwinding, with the flag of its own Poisonable; F2 Poisonable's scoped calls "
+     "poison in the handler before releasing, never on the normal path; F3 Err(PoisonError(x)) exactly on the poisoned edge with the "
+     "same payload x as Ok(x); F4 who may call PoisonFlag::poison; F5 RawLock::poison (kill) only in handlers whose try closure has "
+     "no user call; F6 exclusive scoped calls over generic lockables poison contained Poisonables (fails: known finding).",
+     "the history model (re-poison after clear, cross-thread visibility beyond Relaxed atomics).")
+
+prop("C11",
+     [ts2.rule_G1, ts2.rule_G2, LEAK_SCOPED, ts2.rule_R3key, st.rule_M1, sig.rule_R2, ts.rule_M4, ts2.rule_E4r],
+     "G1 handle_unwind is catch -> handler -> resume (no swallowed panic, handler only on unwind); G2 catch_unwind is used nowhere "
+     "else; G3 every scoped function holds nothing at every unwinding exit (its handler releases the acquired receiver once, in "
+     "mode); G4 RAII holds release in Drop and the key field drops after them; G5 the key is still owned by the frame while the "
+     "closure runs.",
+     "progress of waiting threads (schedules).")
+
+prop("C12",
+     [st.rule_Q1, st.rule_Q2, st2.rule_F5, A("rule_Q3"), A("rule_Q4")],
+     "Q1 every lock_api call sits in a handle_unwind try closure whose handler kills the same lock, and nowhere else; Q2 killed locks "
+     "refuse (blocking ops panic, try ops return false, no raw op attempted); Q3 the algorithms' acquisition loops run inside "
+     "handle_unwind with a handler releasing a prefix of the same list in the same mode; Q4 at every unwind source the handler "
+     "releases exactly what is held (held-set abstract interpretation; known findings where it does not).",
+     "the fault-injection runs themselves; behaviour of third-party raw locks after a panic.")
+
+prop("C13",
+     [st.rule_X1, A("rule_X2"), ts2.rule_R4, cg.rule_E3, st.rule_M2, st.rule_E2, A("rule_E5")],
+     "X1 raw_try_* of Mutex/RwLock returns the unmodified lock_api try result on the not-killed path; X2 collection try is a "
+     "conjunction in list order with rollback, in the requested mode only; R4/E5 a failed attempt holds nothing; E3 never waits.",
+     "the raw lock's own exactness (try succeeds iff free) and the enumeration over held patterns.")
+
+prop("C16",
+     [st2.rule_H1, st2.rule_H2, pos.rule_P1, pos.rule_H4],
+     "H1 heap-cell ownership typestate of the boxed collection (one from_raw per cell, forget after into_child, rejected try_new "
+     "drops); H2 no other leak/duplication primitive; H3 MaybeUninit arrays written at equal source/destination index over 0..N and "
+     "finalised once (in P1); H4 accessors/consumers return their own stored data at the declared positions.",
+     "drop counts when user Drop/Default/Debug code itself panics; values observed after writes (follows from C02).")
+
+prop("C17",
+     [cg.rule_V1, st2.rule_V2, st2.rule_V3, ts.rule_T1, ts.rule_M4],
+     "V1 no non-acquiring function reaches a blocking raw acquisition (call graph over all 200+ of them); V2 a non-acquiring "
+     "function releases nothing except a hold it took itself by a successful try, and releases that on every exit; V3 poison "
+     "accessors touch only the flag.",
+     "the transient effect of Debug's try-lock on concurrent try_* callers.")
